@@ -71,6 +71,8 @@ def index_ranges_are_read_off_the_arena(F, res, rule="A10"):
            "of the same", not bad, where="crates/ide/src/def", how="%d ranges" % n if not bad else "; ".join(bad))
 
 def run(F, res, tier):
+    from rules import c14 as _c14u
+    _c14u.text_positions_are_counted_in_bytes(F, res, rule="A11", crates=('syntax', 'ide', 'glas'))   # engine U: every reported range is made of byte offsets of its document
     # ---- A1
     n = 0
     for p, f in sorted(F.fns.items()):
